@@ -1120,8 +1120,22 @@ fn apply_subs(text: &str, subs: &[(String, String, String)]) -> Result<String, S
             if !prev.ends_with('{') {
                 return Err(format!("internal: line before marker {} does not end with '{{': {}", marker, prev));
             }
-            let head = prev[..prev.len() - 1].trim_end().to_string();
+            let mut head = prev[..prev.len() - 1].trim_end().to_string();
             let hind = indent_of(&lines[p]);
+            // `@iter name` as first spec line: name the ghost iterator of a `for` loop (annotation only)
+            let mut body_owned = body.clone();
+            if let Some(first) = body.lines().find(|l| !l.trim().is_empty()) {
+                if let Some(name) = first.trim().strip_prefix("@iter ") {
+                    let t = head.trim_start();
+                    if let (true, Some(pos)) = (t.starts_with("for ") || t.contains(": for "), head.find(" in ")) {
+                        head = format!("{} in {}: {}", &head[..pos], name.trim(), &head[pos + 4..]);
+                    } else {
+                        return Err(format!("lost-anchor: @iter on a loop header that is not a single-line `for .. in ..`: {}", head));
+                    }
+                    body_owned = body.lines().filter(|l| l.trim() != first.trim()).collect::<Vec<_>>().join("\n");
+                }
+            }
+            let body = &body_owned;
             let mut repl: Vec<String> = vec![];
             if !head.trim().is_empty() {
                 repl.push(head);
